@@ -45,6 +45,51 @@ def h_nearest(ctx):
         ctx.check(d.shape == (1,), "leading-time-axis")
 
 
+def h_interleaved(ctx):
+    """Publications and requests interleaved (pattern of 'P' / 'R'), optionally with memory limit 0 so that every
+    retained publication lives in a spill file: the delivered value is the nearest publication made so far."""
+    import shutil
+    import tempfile
+    pattern, spill = ctx.params["pattern"], ctx.params.get("spill", False)
+    hlib.reset_finam_state()
+    t0 = ctx.dt("t0")
+    out, inp = hlib.linked_pair(fm.Info(time=t0, grid=fm.NoGrid(), units="m"))
+    tmpdir = None
+    if spill:
+        tmpdir = tempfile.mkdtemp(prefix="vf_c08_")
+        out.memory_limit, out.memory_location = 0, tmpdir
+    try:
+        times = []
+        prev = None
+        j = 0
+        for ev in pattern:
+            if ev == "P":
+                t = t0 if not times else times[-1] + ctx.td(f"g{len(times) - 1}", lo_us=1)
+                out.push_data(np.array(float(len(times))), t)
+                times.append(t)
+                continue
+            r = ctx.dt(f"r{j}")
+            ctx.assume((r >= (prev if prev is not None else t0)) & (r <= times[-1]))
+            prev = r
+            try:
+                d = inp.pull_data(r)
+            except (FinamTimeError, OSError, ValueError) as e:
+                ctx.log(f"pull{j}", type(e).__name__)
+                ctx.fail("request-inside-published-range-fails", {"sig": type(e).__name__, "req": j})
+                return
+            i = int(hlib.tagval(d))
+            ctx.log(f"pull{j}", i)
+            ctx.cover("served")
+            for jj, tj in enumerate(times):
+                if jj != i:
+                    ctx.check(abs(r - times[i]) <= abs(r - tj), "nearest-publication",
+                              {"sig": "interleaved" + (":spilled" if spill else "")})
+            j += 1
+    finally:
+        if tmpdir is not None:
+            shutil.rmtree(tmpdir, ignore_errors=True)
+
+
 def h_payload(ctx):
     """Payload forms x grid kinds x unit pairs with symbolic values through the real link."""
     from finam.errors import FinamDataError
@@ -231,6 +276,14 @@ def families(tier):
              bounds="k publications (4 quick, 5 thorough), 3 non-decreasing requests; gaps >= 1 us",
              must_cover=["served", "refused"]),
     ]
+    for pat in (["PPRPRPR"] if q else ["PPRPRPR", "PPPRPRR", "PRPPRPR"]):
+        for spill in (False, True):
+            fams.append(dict(
+                name=f"interleaved:{pat}{':spilled' if spill else ''}", ref="vf.props.c08:h_interleaved",
+                params={"pattern": pat, "spill": spill},
+                bounds=f"event pattern {pat} (P publish, R request inside the published range, non-decreasing); symbolic "
+                       f"gaps and request times" + ("; memory limit 0: every retained publication is a spill file" if spill else ""),
+                must_cover=["served"], **({"workers": 4} if spill else {})))
     if not q:
         from .. import chsrc
         fams.append(dict(name="crosshair:nearest", kind="crosshair", ref="vf.chrun:replay", src=chsrc.NEAREST, params={},
